@@ -1,5 +1,5 @@
 """C04 Hop-by-hop and proxy credential headers are not relayed (end to end + in-process)."""
-import os, re, threading
+import os, re, threading, time
 from concurrent.futures import ThreadPoolExecutor
 from vf.util import VERIF, hx, unhx
 from vf.harness import ProcHarness
@@ -54,7 +54,11 @@ def build_exe(stage):
         built = stage.built = {}
     if "c04" in built:
         return built["c04"]
-    objs = [stage.compile(os.path.join(VERIF, "harness", "c04.cc"), extra=["-fno-sanitize=vptr"])] + stage.compile_many(UNDER_TEST)
+    from concurrent.futures import ThreadPoolExecutor as _TP
+    with _TP(max_workers=2) as ex:   # the harness translation unit and the code under test compile side by side
+        fh = ex.submit(stage.compile, os.path.join(VERIF, "harness", "c04.cc"), extra=["-fno-sanitize=vptr"])
+        fo = ex.submit(stage.compile_many, UNDER_TEST)
+        objs = [fh.result()] + fo.result()
     exe = stage.link_like("tests/testHttpReply", objs, os.path.join(stage.work, "c04"),
                           drop=("HttpHeader.o", "HttpHeaderTools.o", "StrList.o", "String.o"))
     built["c04"] = exe
@@ -111,19 +115,38 @@ class E2E:
         with self.lock:
             if variant not in self.squids:
                 conf = VARIANTS[variant].replace("{oport}", str(self.origin.port))
-                self.squids[variant] = rig.Squid(self.stage, conf=conf).start()
+                for attempt in range(3):      # a loaded machine can take long to get a fresh squid listening
+                    try:
+                        self.squids[variant] = rig.Squid(self.stage, conf=conf).start(wait=40)
+                        break
+                    except RuntimeError:
+                        if attempt == 2:
+                            raise
             return self.squids[variant]
 
-    def transact(self, sq, method, ver, url, req, body):
+    def transact(self, sq, method, ver, url, req, body, expect=False):
         head = [("%s %s HTTP/%s" % (method, url, ver)).encode(), b"Host: origin.test"]
         head += [n + b": " + v for n, v in req]
-        if body:
+        if expect:
+            head.append(b"Expect: 100-continue")
+        if body == "b":
             head.append(b"Content-Length: 3")
+        if body == "s":
+            head.append(b"Transfer-Encoding: chunked")
         c = rig.Client(sq.port, timeout=8)
-        c.send(b"\r\n".join(head) + b"\r\n\r\n" + (b"abc" if body else b""))
+        if body == "s":   # chunked upload in two pieces: Squid normally forwards the head before the last chunk is here
+            c.send(b"\r\n".join(head) + b"\r\n\r\n1\r\na\r\n")
+            time.sleep(0.1 * rig.VERIF_SLOW)
+            c.send(b"2\r\nbc\r\n0\r\n\r\n")
+        else:
+            c.send(b"\r\n".join(head) + b"\r\n\r\n" + (b"abc" if body else b""))
         r = c.response(head_request=(method == "HEAD"))
+        ctrl = None
+        if r is not None and r["status"] // 100 == 1:   # a forwarded control message, the final response follows
+            ctrl = r
+            r = c.response(head_request=(method == "HEAD"))
         c.close()
-        return r
+        return r, ctrl
 
     def one(self, line):
         try:
@@ -141,7 +164,11 @@ class E2E:
 
         def handler(reqd):
             h = [b"HTTP/1.1 %d Status" % status, b"Date: " + rig.date_now().encode()]
-            h += [n + b": " + v for n, v in resp]
+            pre = b""
+            if "x" in opts:    # the scenario's fields travel in a 100 Continue control message
+                pre = b"\r\n".join([b"HTTP/1.1 100 Continue"] + [n + b": " + v for n, v in resp]) + b"\r\n\r\n"
+            else:
+                h += [n + b": " + v for n, v in resp]
             if chunked:
                 h.append(b"Transfer-Encoding: chunked")
                 payload = b"4\r\nbody\r\n0\r\n\r\n"
@@ -150,13 +177,13 @@ class E2E:
                 payload = b"body"
             if status == 204 or status // 100 == 1 or status == 304 or method == "HEAD":
                 payload = b""
-            return [("send", b"\r\n".join(h) + b"\r\n\r\n" + payload)]
+            return [("send", pre + b"\r\n".join(h) + b"\r\n\r\n" + payload)]
         self.origin.on(sid, handler)
         url = self.origin.url(sid, "p")
         out = []
         seen = 0
         for rnd in range(2 if "h" in opts else 1):
-            r = self.transact(sq, method, ver, url, req, "b" in opts)
+            r, ctrl = self.transact(sq, method, ver, url, req, "b" if "b" in opts else "s" if "s" in opts else "", "x" in opts)
             if not sq.alive():
                 return "abort:squid-died " + " ".join(sq.problems()[:2])
             if r is None:
@@ -171,7 +198,10 @@ class E2E:
                 return "arrivals=%d" % len(new)
             ol = show_fields(head_fields(new[0]["raw_head"])) + ("/" + new[0]["framing"] if new[0]["framing"] != "none" else "") if new else "none"
             if rnd == 0:
-                out.append("O=%s C=%s/%s" % (ol, cl, r["framing"]))
+                xs = ""
+                if "x" in opts:
+                    xs = " X=" + (show_fields(head_fields(ctrl["raw_head"])) if ctrl else "none")
+                out.append("O=%s%s C=%s/%s" % (ol, xs, cl, r["framing"]))
             elif new:
                 out.append("R2=M %s;%s/%s" % (ol, cl, r["framing"]))
             else:
@@ -200,7 +230,14 @@ class Harness:
         with ThreadPoolExecutor(max_workers=8) as ex:
             for i, o in zip(idx_e, ex.map(self.e2e.one, [lines[i] for i in idx_e])):
                 res[i] = o
-        # flake guard: an observation the oracle or the model rejects is re-run (sequentially) before it is reported
+        # flake guard: a transaction that did not complete (timeouts under load, a retried request) is re-run alone, up to twice
+        for i in idx_e:
+            for _ in range(2):
+                o = res[i]
+                if o == "no-response" or o.startswith("arrivals=") or " incomplete" in o or " X=none" in o:
+                    res[i] = self.e2e.one(lines[i])
+                else:
+                    break
         self.crashes = self.inproc.crashes
         return res
 
@@ -292,12 +329,15 @@ def judge_direction(sent, seen, framing, allowed_conn, what):
 
 def parse_obs(impl):
     """-> dict(o=[(n,v)]|None, oframing, status, c=[(n,v)], cframing, incomplete, r2=None|(kind, o, oframing, status, c, cframing))"""
-    m2 = re.match(r"O=(\S+) C=(\d+) (\S+)( incomplete)?/([a-z-]+)(.*)$", impl)
+    m2 = re.match(r"O=(\S+)(?: X=(\S+))? C=(\d+) (\S+)( incomplete)?/([a-z-]+)(.*)$", impl)
     if not m2:
         return None
-    res = {"status": int(m2.group(2)), "c": parse_fields(m2.group(3)), "incomplete": bool(m2.group(4)), "cframing": m2.group(5)}
+    res = {"status": int(m2.group(3)), "c": parse_fields(m2.group(4)), "incomplete": bool(m2.group(5)), "cframing": m2.group(6)}
+    res["x"] = None
+    if m2.group(2) and m2.group(2) != "none":
+        res["x"] = parse_fields(m2.group(2))
     o = m2.group(1)
-    rest = m2.group(6)
+    rest = m2.group(7)
     res["oframing"] = "none"
     if o == "none":
         res["o"] = None
@@ -338,6 +378,15 @@ def complaints(l, impl):
     rounds = [(obs["o"], obs["oframing"], obs["c"], obs["cframing"])]
     if obs["r2"]:
         rounds.append((obs["r2"][1], obs["r2"][2], obs["r2"][4], obs["r2"][5]))
+    if "x" in opts:
+        if obs["x"] is None:
+            out.append(("no usable observation: the control message did not arrive", b"", "-"))
+        else:
+            for cmpl, ln in judge_direction(resp, obs["x"], "none", (b"keep-alive",), "to client (1xx)"):
+                if ln == b"proxy-authenticate" and variant in LOGIN_PASS:
+                    continue
+                out.append((cmpl, ln, "1xx"))
+        resp = []     # the final response carries none of the scenario's fields
     for o, oframing, c, cframing in rounds:
         if o is not None:
             for cmpl, ln in judge_direction(client_req, o, oframing, (b"keep-alive", b"close"), "to origin"):
@@ -385,14 +434,20 @@ def oracle(l, impl):
             ln = fs[i][0].rstrip(b" \t\r\n\v\f").lower()
             if ln in noms:
                 bad.append("field %s named by Connection survives" % ln.decode("latin-1"))
-            if k == "R" and ln in STD_HOP:
+            # (Proxy-Authenticate is not removed by removeHopByHopEntries but by buildReplyHeader itself: judged on E lines)
+            if k == "R" and ln in STD_HOP and ln != b"proxy-authenticate":
                 bad.append("hop-by-hop field %s survives" % ln.decode("latin-1"))
         return "; ".join(sorted(set(bad))) if bad else None
     return None
 
 
-def _mask(model_list, impl_list):
-    """model field list (values may be `*`) against observed field list"""
+KA, CLOSE, CONN = hx(b"keep-alive"), hx(b"close"), hx(b"connection")
+
+
+def _mask(model_list, impl_list, peer=False):
+    """model field list (values may be `*`) against observed field list. peer: towards a cache_peer Squid offers keep-alive
+    depending on the peer's keep-alive statistics (n_keepalives_recv / n_keepalives_sent, history of the whole run), so
+    `close` is allowed where the model (fresh peer) says `keep-alive`"""
     if model_list == "." or impl_list == ".":
         return model_list == impl_list
     a, b = model_list.split(","), impl_list.split(",")
@@ -401,7 +456,7 @@ def _mask(model_list, impl_list):
     for x, y in zip(a, b):
         xn, xv = x.split(":")
         yn, yv = y.split(":")
-        if xn != yn or (xv != "*" and xv != yv):
+        if xn != yn or (xv != "*" and xv != yv and not (peer and xn == CONN and xv == KA and yv == CLOSE)):
             return False
     return True
 
@@ -411,13 +466,22 @@ def compare(l, impl, model):
         return impl == model
     if model in ("bad-op", "reject:field", "unknown-body"):
         return impl == model
+    mx = re.match(r"(O=\S+) X=(\S+)( C=.*)$", model)
+    ix = re.match(r"(O=\S+) X=(\S+)( C=.*)$", impl)
+    if (mx is None) != (ix is None):
+        return False
+    if mx:
+        if not _mask(mx.group(2), ix.group(2)):
+            return False
+        model, impl = mx.group(1) + mx.group(3), ix.group(1) + ix.group(3)
     obs_m = re.match(r"O=(\S+) C=(\d+) (\S+)(?: H=(\S+) M=(\S+);(\S+))?$", model)
     m = re.match(r"O=(\S+?)(?:/[a-z-]+)? C=(\d+) (\S+)( incomplete)?/([a-z-]+)(?: R2=(.*))?$", impl)
     if not obs_m or not m:
         return False
     if m.group(4):
         return False
-    if not (_mask(obs_m.group(1), m.group(1)) and obs_m.group(2) == m.group(2) and _mask(obs_m.group(3), m.group(3))):
+    peer = l.split(" ")[1] in ("o", "p", "x", "y")
+    if not (any(_mask(alt, m.group(1), peer) for alt in obs_m.group(1).split("||")) and obs_m.group(2) == m.group(2) and _mask(obs_m.group(3), m.group(3))):
         return False
     if obs_m.group(4) is None:
         return m.group(6) is None
@@ -427,7 +491,7 @@ def compare(l, impl, model):
     if mh:
         return mh.group(1) == obs_m.group(2) and _mask(obs_m.group(4), mh.group(2))
     if mm:
-        return _mask(obs_m.group(5), mm.group(1)) and mm.group(2) == obs_m.group(2) and _mask(obs_m.group(6), mm.group(3))
+        return _mask(obs_m.group(5), mm.group(1), peer) and mm.group(2) == obs_m.group(2) and _mask(obs_m.group(6), mm.group(3))
     return False
 
 
@@ -441,18 +505,21 @@ def classify(l, impl, why):
             return None
         causes = set()
         for cmpl, ln, direction in cs:
+            if direction == "1xx" and ln == b"proxy-authenticate" and cmpl.endswith("proxy-authenticate relayed"):
+                causes.add("1xxpa")
+                continue
             if "named by Connection was relayed" not in cmpl:
                 return None
-            fields = ([(b"Host", b"origin.test")] + req) if direction == "req" else resp
+            fields = ([(b"Host", b"origin.test")] + req) if direction == "req" else split_e(l)[5]
             c = cause_of_miss(fields, ln)
             if c is None and direction == "req" and ln in OWN_CASE:
                 c = "owncase"
             if c is None:
                 return None
             causes.add(c)
-        if len(causes) != 1:
-            return None
-        return {"owncase": "C04-own-case-ignores-connection", "vtff": "C04-list-scan-stops-at-vt-ff", "dquote": "C04-dquote-swallows-list"}[causes.pop()]
+        # every complaint is explained by a known cause; a case that mixes causes is filed under the first one
+        return {"owncase": "C04-own-case-ignores-connection", "vtff": "C04-list-scan-stops-at-vt-ff", "dquote": "C04-dquote-swallows-list",
+                "1xxpa": "C04-1xx-proxy-authenticate-relayed"}[sorted(causes)[0]]
     if k == "L":
         lst = unhx(l.split(" ")[1])
         c = cause_of_miss([(b"Connection", lst)], None)
@@ -487,11 +554,11 @@ def tag(l, impl, model):
     if k == "E":
         variant, method, ver, req, status, resp, opts = split_e(l)
         nr, np_ = len(nominated([(b"Host", b"x")] + req)), len(nominated(resp))
-        r2 = ""
+        r2 = " 1xx" if "x" in opts else ""
         if "R2=H" in (impl or ""):
-            r2 = " hit"
+            r2 += " hit"
         elif "R2=M" in (impl or ""):
-            r2 = " miss2"
+            r2 += " miss2"
         return "E %s %s/%s conn-req=%s conn-resp=%s%s" % (variant, method, ver, "y" if nr else "n", "y" if np_ else "n", r2)
     return k
 
@@ -502,8 +569,12 @@ def shrink(line):
     slots = {"E": [4, 6], "R": [1], "K": [1]}.get(toks[0], [])
     for s in slots:
         fs = parse_fields(toks[s])
-        for i in range(len(fs)):
-            cand = fs[:i] + fs[i + 1:]
+        # big cuts first (the framework keeps the first candidate that still fails): nothing, halves, then single fields
+        cuts = [[]] if fs else []
+        if len(fs) > 3:
+            cuts += [fs[:len(fs) // 2], fs[len(fs) // 2:]]
+        cuts += [fs[:i] + fs[i + 1:] for i in range(len(fs))]
+        for cand in cuts:
             yield " ".join(toks[:s] + [show_fields(cand)] + toks[s + 1:])
         for i, (n, v) in enumerate(fs):
             if n.lower() == b"connection":
@@ -579,6 +650,9 @@ def conn_value(rng, names, mutate=False):
     return out
 
 
+OWN_CASE_RATE = [8]      # 1/n of the request field sets may name a field that has its own switch case (the known finding)
+
+
 def field_set(rng, direction, mutate, registered_pool):
     """-> fields with 0..3 Connection fields nominating some of them"""
     fields = []
@@ -607,6 +681,9 @@ def field_set(rng, direction, mutate, registered_pool):
     rng.shuffle(fields)
     nconn = rng.choice([0, 1, 1, 1, 2, 2, 3])
     cands = [n for n, v in fields]
+    if direction == "req" and not rng.chance(1, OWN_CASE_RATE[0]):
+        # naming a field with its own switch case is the known finding C04-own-case-ignores-connection: keep it to a few scenarios
+        cands = [n for n in cands if n.lower() not in OWN_CASE] or cands[:0]
     for _ in range(nconn):
         names = [rng.choice(cands) for _ in range(rng.below(4))] if cands else []
         if rng.chance(1, 5):
@@ -634,9 +711,9 @@ def e_line(variant, method, ver, req, status, resp, opts):
     return "E %s %s %s %s %d %s %s" % (variant, method, ver, show_fields(req), status, show_fields(resp), opts or "-")
 
 
-def e2e_cases(rng, n):
+def e2e_cases(rng, n, mutate_rate=16):
     for i in range(n):
-        mutate = rng.chance(1, 6)
+        mutate = rng.chance(1, mutate_rate)
         variant = rng.choice(["d", "d", "d", "d", "v", "o", "p", "x", "y"])
         method = rng.choice(["GET", "GET", "GET", "OPTIONS", "POST", "HEAD"])
         ver = "1.1" if rng.chance(5, 6) else "1.0"
@@ -644,11 +721,15 @@ def e2e_cases(rng, n):
         resp = field_set(rng, "resp", mutate and rng.chance(1, 2), E2E_RESP)
         opts = ""
         if method == "POST":
-            opts += "b"
+            opts += "s" if (ver == "1.1" and rng.chance(1, 3)) else "b"
+            if ver == "1.1" and "b" in opts and rng.chance(1, 2):
+                opts += "x"       # Expect: 100-continue; the response fields come in the origin's 100 Continue
         if rng.chance(1, 4) and method != "HEAD":
             opts += "c"
         status = rng.choice([200, 200, 200, 404, 407, 401, 203, 500])
-        if method == "GET" and status == 200 and rng.chance(1, 3) and not any(n.lower() in (b"authorization", b"range", b"request-range", b"cache-control", b"if-range", b"if-modified-since", b"if-none-match", b"pragma") for n, v in req):
+        if "x" in opts:
+            resp = [(n, v) for n, v in resp if n.lower() not in (b"content-length", b"transfer-encoding")]
+        if method == "GET" and status == 200 and rng.chance(1, 3) and not any(n.lower() in (b"authorization", b"range", b"request-range", b"cache-control", b"if-range", b"if-modified-since", b"if-none-match", b"pragma", b"if-match", b"if-unmodified-since") for n, v in req):
             opts += "h"
             resp = [(n, v) for n, v in resp if n.lower() not in (b"set-cookie", b"set-cookie2")] + [(b"Cache-Control", b"max-age=1000")]
         yield e_line(variant, method, ver, req, status, resp, opts)
@@ -662,22 +743,22 @@ def inproc_cases(rng, n):
         k = rng.below(10)
         names = [ext_name(rng) for _ in range(rng.range(1, 4))]
         if k < 5:
-            lst = conn_value(rng, names, mutate=rng.chance(1, 4))
+            lst = conn_value(rng, names, mutate=rng.chance(1, 40))
             m = recase(rng, rng.choice(names)) if rng.chance(3, 4) else ext_name(rng)
             yield "L %s %s" % (hx(lst), hx(m))
         elif k < 6:
             lst = b"".join(rng.choice(LIST_ALPHA + [b"\f", b"\r", b"\n", b"=", b"\0", b"\x80"]) for _ in range(rng.range(0, 12)))
             yield "L %s %s" % (hx(lst), hx(rng.choice([b"a", b"B", b"aB", b"a-", b"-"])))
         else:
-            fs = field_set(rng, "resp", rng.chance(1, 4), E2E_RESP + E2E_REQ + [n for n, v in OWN_CASE_REQ])
+            fs = field_set(rng, "resp", rng.chance(1, 40), E2E_RESP + E2E_REQ + [n for n, v in OWN_CASE_REQ])
             yield "%s %s" % ("R" if rng.chance(3, 4) else "K", show_fields(fs))
 
 
-def exhaustive_lists(maxlen):
-    """every list over LIST_ALPHA up to maxlen, member `aB` / `a`"""
+def exhaustive_lists(maxlen, alpha=LIST_ALPHA):
+    """every list over the alphabet up to maxlen, member `a` / `ab`"""
     import itertools
     for n in range(0, maxlen + 1):
-        for t in itertools.product(LIST_ALPHA, repeat=n):
+        for t in itertools.product(alpha, repeat=n):
             s = b"".join(t)
             yield "L %s %s" % (hx(s), hx(b"a"))
             if n >= 2:
@@ -716,9 +797,17 @@ def sweep_cases(rng):
 
 def cases(rng, tier):
     thorough = tier == "thorough"
-    yield from e2e_cases(rng.fork("e2e"), 2500 if thorough else 260)
+    # inputs of the known-finding classes are kept rare in the quick tier: each failing case is minimised end to end
+    OWN_CASE_RATE[0] = 8 if thorough else 25
+    yield from e2e_cases(rng.fork("e2e"), 2500 if thorough else 260, 16 if thorough else 50)
     yield from inproc_cases(rng.fork("inproc"), 20000 if thorough else 3000)
-    yield from exhaustive_lists(5 if thorough else 3)
+    if thorough:
+        yield from exhaustive_lists(5)
+    else:
+        # quick: the full alphabet to length 3, and to length 4 without the two symbols (VT, double quote) whose lists mostly
+        # re-confirm the known findings (their witnesses are in the corpus; every failing case costs a minimisation)
+        yield from exhaustive_lists(3)
+        yield from (l for l in exhaustive_lists(4, [c for c in LIST_ALPHA if c not in (b"\v", b"\"")]) if len(l.split(" ")[1]) == 8)
     if thorough:
         yield from sweep_cases(rng.fork("sweep"))
     else:
